@@ -55,6 +55,7 @@ type Engine struct {
 	jsonShapeHook func(x *Exec, v Term, g Term, i *ssa.Call)
 	scc         map[*ssa.Function]int
 	sliceTables map[*ssa.Global][]Term // package-level slices initialised from a composite literal
+	errGlobals  map[*ssa.Global]bool   // package-level sentinel errors: initialised by errors.New / fmt.Errorf (non-nil; frame/init-only keeps them so)
 	overlay     map[string][]byte
 }
 
@@ -476,6 +477,11 @@ func (x *Exec) globalCell(g *ssa.Global, st *State) *Cell {
 				arr = Store(arr, IntLit(int64(k)), t)
 			}
 			x.globalInit[c] = SlMk(s, IntLit(int64(len(elems))), arr)
+		} else if x.eng.errGlobals[g] && s == SErr {
+			// a sentinel error: some non-nil error, the same one at every use
+			x.declareOnce(fmt.Sprintf("(declare-const %s_id Int)", name))
+			x.globalInit[c] = mk(SErr, "SomeErr", Term{name + "_id", SInt})
+			x.usedAssumptions["GLOBAL: package-level error "+g.Name()+" keeps the non-nil value its initialiser (errors.New / fmt.Errorf) gave it (frame/init-only)"] = true
 		} else {
 			x.declareOnce(fmt.Sprintf("(declare-const %s %s)", name, s.Name))
 			x.globalInit[c] = Term{name, s}
@@ -856,6 +862,14 @@ func (e *Engine) buildTables() {
 						}
 					}
 					if g, isG := i.Addr.(*ssa.Global); isG {
+						if c, isCall := i.Val.(*ssa.Call); isCall {
+							if sc := c.Call.StaticCallee(); sc != nil && (sc.String() == "errors.New" || sc.String() == "fmt.Errorf") {
+								if e.errGlobals == nil {
+									e.errGlobals = map[*ssa.Global]bool{}
+								}
+								e.errGlobals[g] = true
+							}
+						}
 						if t := maps[i.Val]; t != nil && ok[i.Val] {
 							t.g = g
 							e.tables[g] = t
